@@ -19,7 +19,7 @@ from .mp import MPBytes, MPTrunc
 def length_of(v):
     if isinstance(v, (bytes, bytearray, str)):
         return len(v)
-    if type(v).__name__ == "JSText":
+    if type(v).__name__ in ("JSText", "AvroHeader", "AvroBlock", "CsvRow"):
         return v.length
     if isinstance(v, (SBytes, MPBytes, MPTrunc)):
         if v.length is None:
@@ -163,6 +163,8 @@ class AbsFile(io.IOBase):
     def peek(self, n=0):
         if "b" not in self.mode:
             return ""
+        if self.i < len(self.segs) and getattr(self.segs[self.i][0], "magic", None) is not None:
+            return self.segs[self.i][0].magic  # container formats modelled as one abstract segment expose only their leading magic
         save_i, save_segs = self.i, list(self.segs)
         try:
             return self.read(n)
